@@ -25,8 +25,18 @@ ELS = ["C", "O", "N", "Si", "Fe", "S", "Ca", "TI", "cl"]
 
 
 def num(rng, lo, hi, dec, esd):
+    """a number as CIF text: plain decimal, exponent notation or with an explicit '+' (all legal CIF 1.1 numbers), optionally with
+    an esd in parentheses; returns (text, the float the text states)"""
     v = rng.uniform(lo, hi)
-    t = "%.*f" % (dec, v)
+    style = rng.random()
+    if style < 0.15:
+        t = "%.*e" % (dec + 1, v)                 # 1.03720e+01
+    elif style < 0.22:
+        t = ("%.*E" % (dec + 1, v)).replace("E+0", "E").replace("E-0", "E-")     # 1.0372E1, 9.5E-3
+    else:
+        t = "%.*f" % (dec, v)
+    if v >= 0 and rng.random() < 0.05:
+        t = "+" + t
     return t + ("(%d)" % rng.randint(1, 19) if esd else ""), float(t)
 
 
